@@ -108,7 +108,7 @@ mod verif_c13 {
         std::mem::forget(s2);
     }
 
-    // @harness id=C13 tier=thorough timeout=3400 mem=10
+    // @harness id=C13 tier=deep timeout=3400 mem=10
     // @bounds stage 1 of monotonicity over the full range: pos1 <= pos2 over u64, any length: fraction(pos1) <= fraction(pos2)
     #[kani::proof]
     fn c13_monotone_fraction_full() {
@@ -123,7 +123,7 @@ mod verif_c13 {
         std::mem::forget(s2);
     }
 
-    // @harness id=C13 tier=thorough timeout=3400 mem=10
+    // @harness id=C13 tier=deep timeout=3400 mem=10
     // @bounds stage 2 of monotonicity over the full range: fractions f1 <= f2 in [0,1] (all f32), N <= 65535, c in {1,2}: filled(f1) <= filled(f2)
     #[kani::proof]
     #[kani::unwind(12)]
